@@ -371,6 +371,53 @@ void sexp_conservative_mark (sexp ctx) {
 #endif
 
 #if SEXP_USE_WEAK_REFERENCES
+/* The extra (value) slots of a weak object are reachable through it */
+/* only while all of its weak (key) slots are: after the initial mark, */
+/* trace the values of every marked ephemeron whose key is marked or */
+/* immediate, repeating until no further ephemeron qualifies. */
+static void sexp_mark_ephemeron_values(sexp ctx) {
+  int i, len, extra, alive, progress;
+  sexp_heap h;
+  sexp p, t, end, *v;
+  sexp_free_list q, r;
+  if (sexp_not(sexp_global(ctx, SEXP_G_WEAK_OBJECTS_PRESENT)))
+    return;
+  do {
+    progress = 0;
+    for (h = sexp_context_heap(ctx) ; h; h=h->next) {
+      p = sexp_heap_first_block(h);
+      q = h->free_list;
+      end = sexp_heap_end(h);
+      while (p < end) {
+        for (r=q->next; r && ((char*)r<(char*)p); q=r, r=r->next)
+          ;
+        if ((char*)r == (char*)p) { /* this is a free block, skip it */
+          p = (sexp) (((char*)p) + r->size);
+          continue;
+        }
+        if (sexp_valid_object_p(ctx, p) && sexp_markedp(p)) {
+          t = sexp_object_type(ctx, p);
+          extra = sexp_type_weak_len_extra(t);
+          if (sexp_type_weak_base(t) > 0 && extra > 0) {
+            v = (sexp*) ((char*)p + sexp_type_weak_base(t));
+            len = sexp_type_num_weak_slots_of_object(t, p);
+            for (i=0, alive=1; i<len; i++)
+              if (v[i] && sexp_pointerp(v[i]) && ! sexp_markedp(v[i]))
+                alive = 0;
+            if (alive)
+              for (i=len; i<len+extra; i++)
+                if (v[i] && sexp_pointerp(v[i]) && ! sexp_markedp(v[i])) {
+                  sexp_mark(ctx, v[i]);
+                  progress = 1;
+                }
+          }
+        }
+        p = (sexp) (((char*)p)+sexp_heap_align(sexp_allocated_bytes(ctx, p)));
+      }
+    }
+  } while (progress);
+}
+
 int sexp_reset_weak_references(sexp ctx) {
   int i, len, broke, all_reset_p;
   sexp_heap h;
@@ -420,6 +467,7 @@ int sexp_reset_weak_references(sexp ctx) {
   return broke;
 }
 #else
+#define sexp_mark_ephemeron_values(ctx)
 #define sexp_reset_weak_references(ctx) 0
 #endif
 
@@ -572,6 +620,7 @@ sexp sexp_gc (sexp ctx, size_t *sum_freed) {
   sexp_mark_global_symbols(ctx);
   sexp_mark(ctx, ctx);
   sexp_conservative_mark(ctx);
+  sexp_mark_ephemeron_values(ctx);
   sexp_reset_weak_references(ctx);
 #if SEXP_VERIF_SIM
   if (sexp_verif_hooks.gc) sexp_verif_hooks.gc(ctx, 1);
